@@ -18,6 +18,8 @@
 EXTENDS Naturals, Integers, Sequences, FiniteSets, TLC
 
 NoMax == -1                       \* MaxObjectCount omitted on Open
+NoOt == -1                        \* OperationTimeout omitted on Open
+NoCoe == -1                       \* ContinueOnError omitted on Open (0 FALSE, 1 TRUE)
 InvalidEnumCtx == 21              \* CIM_ERR_INVALID_ENUMERATION_CONTEXT
 
 (* open kind -> pull kind                                                  *)
@@ -32,20 +34,29 @@ Rng(s) == {s[i] : i \in DOMAIN s}
 Injective(s) == \A i, j \in DOMAIN s : s[i] = s[j] => i = j
 F(name, holds) == IF holds THEN {} ELSE {name}
 
-InitState(nss) ==
-  [ctx |-> << >>,        \* id :> [kind, rem, all, ns]   (function on open ids)
+(* Several WBEM servers may live in one process (one per                    *)
+(* FakedWBEMConnection).  Context ids are abstract and global; every open  *)
+(* session is OWNED by the server that issued it (field srv).  A context   *)
+(* offered to another server is a FOREIGN context there: it must be        *)
+(* refused like a stale one and the owner's session must not notice.       *)
+InitState(nss, srvs) ==
+  [ctx |-> << >>,        \* id :> [kind, rem, ns, srv]   (function on open ids)
    issued |-> {},        \* ids ever handed out
    deliv |-> << >>,      \* id :> set delivered so far (kept after close/eos)
    alls |-> << >>,       \* id :> traditional result of the session
    done |-> {},          \* ids whose session reached end-of-sequence
-   liveNs |-> nss,
-   pullOn |-> TRUE]
+   liveNs |-> [v \in srvs |-> nss],       \* per server
+   pullOn |-> [v \in srvs |-> TRUE]]      \* per server
 
 Open(s) == DOMAIN s.ctx
+Own(s, v) == {id \in Open(s) : s.ctx[id].srv = v}   \* sessions open ON server v
 
 (***************************************************************************)
 (* Events.  All fields are present in every event (monomorphic JSON):      *)
 (*  op    "Open" | "Pull" | "Close" | "RemoveNs" | "SetPull"               *)
+(*  srv   the server (connection) the call is made on                      *)
+(*  ot    OperationTimeout of an Open (NoOt if omitted; 0 = never expire)  *)
+(*  coe   ContinueOnError of an Open (NoCoe / 0 / 1)                       *)
 (*  k     open kind (Open) / pull kind (Pull)                              *)
 (*  ns    namespace id (Open, RemoveNs)                                    *)
 (*  all   traditional result as a sequence of object ids (Open)            *)
@@ -53,12 +64,19 @@ Open(s) == DOMAIN s.ctx
 (*  m     MaxObjectCount (NoMax if omitted)                                *)
 (*  id    context id used in the call (Pull, Close)                        *)
 (*  ok, code, objs, eos, ctx : the observed response                       *)
-(*  nctx  size of the server's context table after the call (-1 unknown)   *)
+(*  nctx  size of THAT server's context table after the call (-1 unknown)  *)
+(*                                                                         *)
+(* ot and coe are deliberately NOT read by any clause: the statement       *)
+(* quantifies over "every Open... call", so every legal OperationTimeout   *)
+(* (omitted, 0, 1..server maximum) and every ContinueOnError value must be *)
+(* served alike.  Environment assumption (Appendix A): the client issues   *)
+(* the next call of a session promptly, i.e. well within the smallest      *)
+(* positive OperationTimeout (1 s); under it no session may expire.        *)
 (***************************************************************************)
 
 OpenFails(s, e) ==
-  IF ~s.pullOn THEN F("Open.RefusedWhenPullUnsupported", ~e.ok)
-  ELSE IF ~e.tradok \/ e.ns \notin s.liveNs
+  IF ~s.pullOn[e.srv] THEN F("Open.RefusedWhenPullUnsupported", ~e.ok)
+  ELSE IF ~e.tradok \/ e.ns \notin s.liveNs[e.srv]
        THEN F("Open.FailsWhenTraditionalFails", ~e.ok)
   ELSE IF ~e.ok THEN {"Open.SucceedsWhenTraditionalSucceeds"}
   ELSE LET R == Rng(e.all) IN
@@ -70,11 +88,11 @@ OpenFails(s, e) ==
   \cup F("Open.FreshContext", e.ctx = 0 \/ e.ctx \notin s.issued)
 
 OpenApply(s, e) ==
-  IF ~s.pullOn \/ ~e.ok \/ e.ctx = 0 \/ e.eos THEN s
+  IF ~s.pullOn[e.srv] \/ ~e.ok \/ e.ctx = 0 \/ e.eos THEN s
   ELSE [s EXCEPT
          !.ctx = (e.ctx :> [kind |-> PullKindOf(e.k),
                            rem |-> Rng(e.all) \ Rng(e.objs),
-                           ns |-> e.ns]) @@ @,
+                           ns |-> e.ns, srv |-> e.srv]) @@ @,
          !.issued = @ \cup {e.ctx},
          !.deliv = (e.ctx :> Rng(e.objs)) @@ @,
          !.alls = (e.ctx :> Rng(e.all)) @@ @]
@@ -83,7 +101,7 @@ PullNormal(s, e) ==   \* context exists and kind matches
   LET c == s.ctx[e.id] IN
   IF ~e.ok THEN
        \* a namespace that disappeared mid-session may make the pull fail
-       F("Pull.ValidContextServed", c.ns \notin s.liveNs)
+       F("Pull.ValidContextServed", c.ns \notin s.liveNs[e.srv])
   ELSE F("Pull.OnlyRemainingObjects", Rng(e.objs) \subseteq c.rem)
   \cup F("Pull.NothingTwice", Injective(e.objs))
   \cup F("Pull.AtMostMaxObjectCount", Len(e.objs) <= e.m)
@@ -92,10 +110,15 @@ PullNormal(s, e) ==   \* context exists and kind matches
   \cup F("Pull.ContextIffNotEos", e.eos <=> (e.ctx = 0))
   \cup F("Pull.SameContext", e.ctx = 0 \/ e.ctx = e.id)
 
+(* the context is open, but on another server *)
+Foreign(s, e) == e.id \in Open(s) /\ s.ctx[e.id].srv # e.srv
+
 PullFails(s, e) ==
-  IF ~s.pullOn THEN F("Pull.RefusedWhenPullUnsupported", ~e.ok)
+  IF ~s.pullOn[e.srv] THEN F("Pull.RefusedWhenPullUnsupported", ~e.ok)
   ELSE IF e.id \notin Open(s)
        THEN F("Pull.StaleContextRefused", ~e.ok /\ e.code = InvalidEnumCtx)
+  ELSE IF Foreign(s, e)
+       THEN F("Pull.ForeignContextRefused", ~e.ok /\ e.code = InvalidEnumCtx)
   ELSE IF s.ctx[e.id].kind # e.k
        THEN F("Pull.WrongKindRefused", ~e.ok)
   ELSE PullNormal(s, e)
@@ -103,7 +126,8 @@ PullFails(s, e) ==
 Drop(f, id) == [x \in (DOMAIN f) \ {id} |-> f[x]]
 
 PullApply(s, e) ==
-  IF ~s.pullOn \/ e.id \notin Open(s) \/ ~e.ok THEN s
+  IF ~s.pullOn[e.srv] \/ e.id \notin Open(s) \/ ~e.ok THEN s
+  ELSE IF Foreign(s, e) THEN s           \* the owner's session is untouched
   ELSE IF s.ctx[e.id].kind # e.k THEN s
   ELSE LET d == Rng(e.objs) IN
        IF e.eos
@@ -114,27 +138,30 @@ PullApply(s, e) ==
                       !.deliv[e.id] = @ \cup d]
 
 CloseFails(s, e) ==
-  IF ~s.pullOn THEN F("Close.RefusedWhenPullUnsupported", ~e.ok)
+  IF ~s.pullOn[e.srv] THEN F("Close.RefusedWhenPullUnsupported", ~e.ok)
   ELSE IF e.id \notin Open(s)
        THEN F("Close.StaleContextRefused", ~e.ok /\ e.code = InvalidEnumCtx)
+  ELSE IF Foreign(s, e)
+       THEN F("Close.ForeignContextRefused", ~e.ok /\ e.code = InvalidEnumCtx)
   ELSE F("Close.OpenContextClosed", e.ok)
 
 CloseApply(s, e) ==
-  IF s.pullOn /\ e.id \in Open(s) /\ e.ok
+  IF s.pullOn[e.srv] /\ e.id \in Open(s) /\ ~Foreign(s, e) /\ e.ok
   THEN [s EXCEPT !.ctx = Drop(@, e.id)] ELSE s
 
 Apply(s, e) ==
   CASE e.op = "Open"     -> OpenApply(s, e)
     [] e.op = "Pull"     -> PullApply(s, e)
     [] e.op = "Close"    -> CloseApply(s, e)
-    [] e.op = "RemoveNs" -> [s EXCEPT !.liveNs = @ \ {e.ns}]
-    [] e.op = "SetPull"  -> [s EXCEPT !.pullOn = e.ok]
+    [] e.op = "RemoveNs" -> [s EXCEPT !.liveNs[e.srv] = @ \ {e.ns}]
+    [] e.op = "SetPull"  -> [s EXCEPT !.pullOn[e.srv] = e.ok]
 
 (* "no enumeration context stays open on the server": the server's table   *)
-(* holds exactly the sessions that are neither at eos nor closed           *)
+(* holds exactly the sessions that are neither at eos nor closed - and     *)
+(* that were opened ON THAT server (it never holds another server's)       *)
 NoLeakFails(s, e) ==
   F("NoLeak.ServerTableEqualsOpenSessions",
-    e.nctx = -1 \/ e.nctx = Cardinality(Open(Apply(s, e))))
+    e.nctx = -1 \/ e.nctx = Cardinality(Own(Apply(s, e), e.srv)))
 
 Fails(s, e) ==
   (CASE e.op = "Open"  -> OpenFails(s, e)
